@@ -27,5 +27,11 @@ theorem body_osExecCommand_SetStderr : Tea.Gen.fact_body_osExecCommand_SetStderr
 theorem body_Program_suspend : Tea.Gen.fact_body_Program_suspend = Tea.Doc.fact_body_Program_suspend := rfl
 theorem el_case_SuspendMsg : Tea.Gen.fact_el_case_SuspendMsg = Tea.Doc.fact_el_case_SuspendMsg := rfl
 theorem methods_osExecCommand : Tea.Gen.fact_methods_osExecCommand = Tea.Doc.fact_methods_osExecCommand := rfl
+theorem body_standardRenderer_altScreen : Tea.Gen.fact_body_standardRenderer_altScreen = Tea.Doc.fact_body_standardRenderer_altScreen := rfl
+theorem body_standardRenderer_bracketedPasteActive : Tea.Gen.fact_body_standardRenderer_bracketedPasteActive = Tea.Doc.fact_body_standardRenderer_bracketedPasteActive := rfl
+theorem body_standardRenderer_reportFocus : Tea.Gen.fact_body_standardRenderer_reportFocus = Tea.Doc.fact_body_standardRenderer_reportFocus := rfl
+theorem body_suspendProcess : Tea.Gen.fact_body_suspendProcess = Tea.Doc.fact_body_suspendProcess := rfl
+theorem body_Suspend : Tea.Gen.fact_body_Suspend = Tea.Doc.fact_body_Suspend := rfl
+theorem body_newInputReader : Tea.Gen.fact_body_newInputReader = Tea.Doc.fact_body_newInputReader := rfl
 
 end Tea.Props.Bridge.C17
